@@ -4,7 +4,7 @@ import itertools
 import os
 import random
 
-from vlib import cases, model, tlc
+from vlib import cases, graphwalk, model, tlc
 from vlib.graphwalk import canon
 from adapters.C19 import compare, safe
 
@@ -48,7 +48,10 @@ def run(ctx):
         for w in itertools.product(range(k["MaxW"] + 1), repeat=n):
             for kind in ("sum", "max"):
                 yk = (sum(w) + n + (kind == "sum")) % 2 == 0
-                out, err = record(g, list(w), kind, yk)
+                try:
+                    out, err = graphwalk.guarded(lambda: record(g, list(w), kind, yk), 20.0)
+                except graphwalk.Timeout:
+                    out, err = [], "does not terminate (no result within 20 s, or unbounded allocation)"
                 ctx.case(("sorted_combinations", w, kind))
                 ctx.traces += 1
                 if err:
@@ -71,9 +74,11 @@ def run(ctx):
             keyf = sum if kind == "sum" else max
             out = []
             try:
-                for comb, kk in itertools.islice(g.sorted_combinations(list(w), keyf, yield_key=True), 0, 2 ** n + 3):
-                    out.append({"c": list(comb), "k": kk})
-            except Exception as e:
+                def drive():
+                    for comb, kk in itertools.islice(g.sorted_combinations(list(w), keyf, yield_key=True), 0, 2 ** n + 3):
+                        out.append({"c": list(comb), "k": kk})
+                graphwalk.guarded(drive, 20.0)
+            except (Exception, graphwalk.Timeout) as e:
                 ctx.violation({"kind": "case", "fn": "sorted_combinations"}, "elements %s key %s: raised %r" % (w, kind, e),
                               {"engine": "cases", "elements": list(w), "kind": kind})
                 continue
